@@ -14,9 +14,10 @@ Inductive outcome (S R : Type) :=
 | Ret (r : R)
 | RetNone             (* return None / a tuple of None *)
 | Raised (e : exn)
-| NonInt.             (* a value left the integers (negative exponent): nothing further is claimed *)
+| NonInt              (* a value left the integers (negative exponent): nothing further is claimed *)
+| Brk (s : S).        (* break *)
 Arguments Next {S R} s. Arguments Cont {S R} s. Arguments Ret {S R} r.
-Arguments RetNone {S R}. Arguments Raised {S R} e. Arguments NonInt {S R}.
+Arguments RetNone {S R}. Arguments Raised {S R} e. Arguments NonInt {S R}. Arguments Brk {S R} s.
 
 (* result of a call *)
 Inductive fres (R : Type) := FRet (r : R) | FNone | FRaised (e : exn) | FNonInt.
@@ -27,7 +28,13 @@ Definition seqo {S R} (o : outcome S R) (k : S -> outcome S R) : outcome S R :=
 Definition uncont {S R} (o : outcome S R) : outcome S R :=
   match o with Cont s => Next s | other => other end.
 Definition finish {S R} (o : outcome S R) : fres R :=
-  match o with Next _ | Cont _ | RetNone => FNone | Ret r => FRet r | Raised e => FRaised e | NonInt => FNonInt end.
+  match o with Next _ | Cont _ | Brk _ | RetNone => FNone | Ret r => FRet r | Raised e => FRaised e | NonInt => FNonInt end.
+(* after a loop: break ends the loop, not the block *)
+Definition unloop {S R} (o : outcome S R) : outcome S R :=
+  match o with Brk s => Next s | other => other end.
+(* a method that mutates self: every exit carries (result, self at that moment); falling through returns None *)
+Definition finishM {S V O} (self_of : S -> O) (lost : O) (o : outcome S (fres V * O)) : fres V * O :=
+  match o with Next s | Cont s | Brk s => (FNone, self_of s) | Ret r => r | RetNone => (FNone, lost) | Raised e => (FRaised e, lost) | NonInt => (FNonInt, lost) end.
 (* x = f() / a, b = f(): a None result cannot be unpacked or used as a number *)
 Definition bindr {S R R'} (c : fres R') (k : R' -> outcome S R) : outcome S R :=
   match c with FRet r => k r | FNone => Raised EType | FRaised e => Raised e | FNonInt => NonInt end.
@@ -42,6 +49,16 @@ Definition enumerate {A} (l : list A) : list (Z * A) := combine (map Z.of_nat (s
 
 (* range(n): 0, 1, ..., n-1 (empty for n <= 0) *)
 Definition pyrange (n : Z) : list Z := map Z.of_nat (seq 0 (Z.to_nat n)).
+
+(* l[j] with Python's negative indices; None = IndexError *)
+Definition py_index (len : nat) (j : Z) : option nat :=
+  let k := if j <? 0 then j + Z.of_nat len else j in
+  if (0 <=? k) && (k <? Z.of_nat len) then Some (Z.to_nat k) else None.
+Definition idx_ok {A} (l : list A) (j : Z) : bool := match py_index (length l) j with Some _ => true | None => false end.
+Definition list_get {A} (d : A) (l : list A) (j : Z) : A := match py_index (length l) j with Some k => nth k l d | None => d end.
+Fixpoint set_nth {A} (l : list A) (k : nat) (v : A) : list A :=
+  match l, k with [], _ => [] | _ :: t, O => v :: t | a :: t, S k' => a :: set_nth t k' v end.
+Definition list_set {A} (l : list A) (j : Z) (v : A) : list A := match py_index (length l) j with Some k => set_nth l k v | None => l end.
 
 (* str values built by f-strings: literal pieces and integers *)
 Inductive tok := TS (s : String.string) | TZ (z : Z).
